@@ -57,5 +57,25 @@ CHECKS = {
         "note": "Trusted: the mdoc writer/tokenizer and models in mc/props/C17.py, mc/oracles/startok.py, mc/oracles/emfmt.py. Mdoc floats restricted to positional repr; an int coming back as the equal float is not judged.",
         "technique": "explicit-state BFS over Mdoc operation histories plus bounded-exhaustive enumeration of file layouts/configurations, on the implementation",
     },
+    "C02": {
+        "text": "Write->read: every table of rows 0..3 x column-kind tuples over {int,float,text,mixed} (length <= 3; thorough <= 4 plus 30-column and 200-row tables) x block names x numbering, and all two-/three-block lists over 25 name pairs; each case writes, tokenises the file independently, reads, writes again and reads again. Hand-built texts: the complete product of a slot grammar (lines before a block, label suffix, lines after labels, between blocks, separator, row lead/trail whitespace, LF/CRLF, final newline) over small tables, read by Starfile.read and compared with the independent tokenizer.",
+        "note": "Trusted: mc/oracles/startok.py (line-oriented tokenizer/writer, re only). Excluded as the quantifier says: NaN/inf, tokens with whitespace or '#', purely numeric text columns.",
+        "technique": "bounded-exhaustive enumeration of tables and of a STAR layout grammar on the implementation against an independent tokenizer",
+    },
+    "C04": {
+        "text": "Every ordered selection of 1..4 subtomogram ids (thorough 1..5, plus a 300-row list) x 6 index kinds (default, offset, gaps, reversed, after remove_feature, split_by_feature piece) x reset on/off for the in-memory export; import of independently built STOPGAP frames/files in 4 column orders x layouts x 5 entry points; export via file through 3 writers x 7 input/history variants x update_coord x reset_index x 3 loaders, the written file tokenised independently.",
+        "note": "Trusted: the module's own copy of the 14-pair renaming table, mc/oracles/startok.py. Exported column order and the non-shared fields are not judged.",
+        "technique": "bounded-exhaustive enumeration of lists, index histories and configurations on the implementation against an independent renaming table",
+    },
+    "C09": {
+        "text": "Lists are all sequences (length <= 4, thorough <= 5) over an alphabet of particle kinds (inside; below/beyond each face; inside only by shift; inside another tomogram's dimensions only; on zero/one voxels; outside the mask volume incl. negative coordinates) x boundary type x box x dimension forms (Nx4 array/DataFrame/file in three row orders, 1x3 forms); every 5^3 trimming coordinate; reference point sets x radii; masks of constant 3^3 blocks in four mask modes; inplace on/off. Exact inside-set oracle on complete positions and the particle's own tomogram; survivors compared as tagged rows.",
+        "note": "Trusted: the inside-set model in mc/props/C09.py, mc/oracles/emfmt.py/mrcfmt.py for mask files. Boundary values on which readings of 'inside' differ are not in the palette. One recorded finding (C09-K1, lower faces).",
+        "technique": "bounded-exhaustive enumeration of particle-kind sequences and configurations on the implementation against an exact inside-set oracle",
+    },
+    "C10": {
+        "text": "Every n in 1..64 in all four spellings (int, float, 'Cn', 'cn') x 15 particle lists (gimbal locks, half-integer ties, negative positions, non-zero shifts, non-sequential ids) x 4 subunit offsets (incl. on-axis and zero); thorough adds 64 right-angle and 36 lattice poses, more offsets and 100-particle lists. Rows matched by (parent, subunit index) and judged against explicit so3 matrices: R*Rz(360k/n), centre + R*Rz(360k/n)*s.",
+        "note": "Trusted: mc/oracles/so3.py, numpy. Tolerances 1e-8 (matrices) / 1e-9 (positions).",
+        "technique": "bounded-exhaustive enumeration of symmetry orders, spellings, poses and offsets on the implementation against an explicit-matrix oracle",
+    },
 }
 NOT_APPLICABLE = {}
